@@ -55,15 +55,28 @@ type JobResult struct {
 	ViolationCount  map[string]int
 	Inconclusive    map[string]int // reason -> count
 	UnknownBranches int
+	ModelHits       int
+	CacheHits       int
 	Samples         []map[string]interface{}
 	Wall            time.Duration
 	CapHit          bool
 }
 
+type qkey struct {
+	h1, h2 uint64
+	extra  string
+}
+
+type qval struct {
+	r     SatResult
+	model map[string]interface{}
+}
+
 type jobRun struct {
-	spec JobSpec
-	log  []Decision
-	res  *JobResult
+	spec   JobSpec
+	log    []Decision
+	res    *JobResult
+	qcache map[qkey]qval
 }
 
 type Exec struct {
@@ -96,6 +109,10 @@ type Exec struct {
 	race      *raceState
 	endMsg    string
 	killing   bool
+	h1, h2    uint64
+	model     map[string]interface{} // satisfies pc when modelOK
+	modelOK   bool
+	side      []*Term
 	inInit    bool
 	timers    []*Chan
 }
@@ -123,6 +140,17 @@ func (ex *Exec) addPC(t *Term) {
 	}
 	ex.pc = append(ex.pc, t)
 	ex.pcSet[s] = true
+	for i := 0; i < len(s); i++ {
+		ex.h1 = (ex.h1 ^ uint64(s[i])) * 1099511628211
+		ex.h2 = (ex.h2*31 + uint64(s[i])) ^ (ex.h2 >> 29)
+	}
+	ex.h1 = (ex.h1 ^ 0xff) * 1099511628211
+	ex.h2 = ex.h2*131 + 7
+	if ex.modelOK {
+		if v, ok := evalBool(t, ex.model); !ok || !v {
+			ex.modelOK = false
+		}
+	}
 	if t.Op == "and" {
 		for _, a := range t.Args {
 			ex.pcSet[a.String()] = true
@@ -131,8 +159,31 @@ func (ex *Exec) addPC(t *Term) {
 }
 
 func (ex *Exec) check(extra *Term) SatResult {
-	r, _ := ex.w.solver.Check(ex.pc, extra, nil)
+	r, _ := ex.query(extra, false)
 	return r
+}
+
+// query decides pc ∧ extra through the per-job cache (re-execution of a path prefix
+// repeats its queries verbatim).
+func (ex *Exec) query(extra *Term, wantModel bool) (SatResult, map[string]interface{}) {
+	k := qkey{h1: ex.h1, h2: ex.h2}
+	if extra != nil {
+		k.extra = extra.String()
+	}
+	if v, ok := ex.job.qcache[k]; ok && (!wantModel || v.model != nil || v.r != Sat) {
+		ex.job.res.CacheHits++
+		return v.r, v.model
+	}
+	var syms map[string]*Term
+	if wantModel {
+		syms = ex.symMap
+	}
+	r, m := ex.w.solver.Check(ex.pc, extra, syms)
+	if wantModel && r == Sat && m == nil {
+		m = map[string]interface{}{}
+	}
+	ex.job.qcache[k] = qval{r, m}
+	return r, m
 }
 
 func (ex *Exec) known(c *Term) (val, ok bool) {
@@ -186,9 +237,21 @@ func (ex *Exec) decide(kind string, guards []*Term) int {
 			feas = append(feas, i) // exhaustive guards, pc satisfiable
 			continue
 		}
-		switch ex.check(g) {
+		if ex.modelOK {
+			if v, ok := evalBool(g, ex.model); ok && v {
+				feas = append(feas, i)
+				jr.res.ModelHits++
+				continue
+			}
+		}
+		r, model := ex.query(g, true)
+		switch r {
 		case Sat:
 			feas = append(feas, i)
+			if len(feas) == 1 && model != nil {
+				// first feasible option is taken next: its model stays valid
+				ex.model, ex.modelOK = model, true
+			}
 		case Unknown:
 			jr.res.UnknownBranches++
 			feas = append(feas, i)
@@ -224,10 +287,13 @@ func (ex *Exec) symString(name string, maxLen int) *Term {
 	}
 	t := TSym(name, SString)
 	ex.symMap[name] = t
+	ex.model[name] = ""
 	if maxLen <= 0 {
 		maxLen = ex.w.cfg.StrMaxLen
 	}
-	ex.addPC(mk("str.in_re", SBool, t, printableRe))
+	// the printable-ASCII side constraint is asserted only in assertion and model
+	// queries (it is expensive); feasibility queries over-approximate without it.
+	ex.side = append(ex.side, mk("str.in_re", SBool, t, printableRe))
 	ex.addPC(mk("<=", SBool, mk("str.len", SInt, t), TInt(int64(maxLen))))
 	return t
 }
@@ -238,6 +304,11 @@ func (ex *Exec) symInt(name string, lo, hi int64) *Term {
 	}
 	t := TSymIntRange(name, lo, hi)
 	ex.symMap[name] = t
+	if lo <= 0 && 0 <= hi {
+		ex.model[name] = int64(0)
+	} else {
+		ex.model[name] = lo
+	}
 	ex.addPC(mk("<=", SBool, TInt(lo), t))
 	ex.addPC(mk("<=", SBool, t, TInt(hi)))
 	return t
@@ -249,6 +320,7 @@ func (ex *Exec) symBool(name string) *Term {
 	}
 	t := TSym(name, SBool)
 	ex.symMap[name] = t
+	ex.model[name] = false
 	return t
 }
 
@@ -279,7 +351,7 @@ func (ex *Exec) vassert(cond Value, label string) {
 		res.AssertTrivial[label]++
 		return
 	}
-	r, model := ex.w.solver.Check(ex.pc, TNot(c), ex.symMap)
+	r, model := ex.query(TAnd(append(append([]*Term{}, ex.side...), TNot(c))...), true)
 	switch r {
 	case Unsat:
 		res.AssertChecked[label]++
@@ -322,7 +394,11 @@ func (ex *Exec) vassume(cond Value) {
 
 // modelNow asks for a model of the current path condition.
 func (ex *Exec) modelNow() (map[string]interface{}, bool) {
-	r, model := ex.w.solver.Check(ex.pc, nil, ex.symMap)
+	var extra *Term
+	if len(ex.side) > 0 {
+		extra = TAnd(ex.side...)
+	}
+	r, model := ex.query(extra, true)
 	if len(ex.symMap) == 0 && r == Sat {
 		return map[string]interface{}{}, true
 	}
@@ -335,7 +411,7 @@ func (w *Worker) runJob(spec JobSpec) *JobResult {
 	t0 := time.Now()
 	res := &JobResult{Spec: spec, AssertChecked: map[string]int{}, AssertTrivial: map[string]int{}, Reached: map[string]int{},
 		ViolationCount: map[string]int{}, Inconclusive: map[string]int{}}
-	jr := &jobRun{spec: spec, res: res}
+	jr := &jobRun{spec: spec, res: res, qcache: map[qkey]qval{}}
 	fn := w.findHarness(spec.Harness)
 	if fn == nil {
 		res.Inconclusive["harness not found (does not compile against this tree?): "+spec.Harness]++
@@ -372,7 +448,7 @@ func (w *Worker) runJob(spec JobSpec) *JobResult {
 
 func (w *Worker) runPath(jr *jobRun, fn *ssa.Function) {
 	ex := &Exec{w: w, job: jr, globals: map[*ssa.Global]*Value{}, pcSet: map[string]bool{}, symMap: map[string]*Term{},
-		locks: map[*Value]*lockState{}, wgs: map[*Value]*wgState{}, onces: map[*Value]bool{}, atomics: map[*Value]Value{}, ghost: map[string]Value{}}
+		locks: map[*Value]*lockState{}, wgs: map[*Value]*wgState{}, onces: map[*Value]bool{}, atomics: map[*Value]Value{}, ghost: map[string]Value{}, model: map[string]interface{}{}, modelOK: true}
 	ex.clock = int64(0)
 	main := &Goroutine{id: 0, resume: make(chan struct{}, 1)}
 	ex.cur = main
